@@ -158,6 +158,15 @@ func c17Send(e *Env, spec BackendSpec, mm *gostatsd.MetricMap, events []*gostats
 			}
 			units = len(lines)
 		}
+		if strings.HasPrefix(spec.Kind, "otlp") {
+			// one OTLP metric = one name (within a resource); distinct names is a lower bound of the
+			// number of metrics the request carries
+			names := map[string]bool{}
+			for _, p := range pts {
+				names[p.Name] = true
+			}
+			units = len(names)
+		}
 		out.perUnit = append(out.perUnit, units)
 		out.payloads++
 	}
@@ -328,7 +337,7 @@ func (c17) Run(e *Env) {
 	var events []*gostatsd.Event
 	if strings.HasPrefix(kind, "statsdaemon") {
 		for i, n := 0, e.Draw(3); i < n; i++ {
-			ev := &gostatsd.Event{Title: fmt.Sprintf("ev-%d title", i), Text: []string{"text", "two\nlines", "a|b"}[e.Draw(3)], DateHappened: int64(e.Draw(2)) * 1700000000,
+			ev := &gostatsd.Event{Title: fmt.Sprintf([]string{"ev-%d title", "ev-%d títle ✓", "ev-%d"}[e.Draw(3)], i), Text: []string{"text", "two\nlines", "a|b", "naïve café ✓", ""}[e.Draw(5)], DateHappened: int64(e.Draw(2)) * 1700000000,
 				Source: gostatsd.Source([]string{"", "10.0.0.9"}[e.Draw(2)]), AggregationKey: []string{"", "k1"}[e.Draw(2)], SourceTypeName: []string{"", "st"}[e.Draw(2)],
 				Priority: []gostatsd.Priority{gostatsd.PriNormal, gostatsd.PriLow}[e.Draw(2)], AlertType: []gostatsd.AlertType{gostatsd.AlertInfo, gostatsd.AlertError}[e.Draw(2)]}
 			if e.Bool() {
@@ -367,6 +376,12 @@ func (c17) Run(e *Env) {
 		for i, n := range got.perUnit {
 			if n > spec.BatchSize {
 				e.Failf("C17/influx-batch-limit", "%s: request %d carries %d lines, metrics-per-batch is %d", kind, i, n, spec.BatchSize)
+			}
+		}
+	case strings.HasPrefix(kind, "otlp") && spec.BatchSize > 0:
+		for i, n := range got.perUnit {
+			if n > spec.BatchSize {
+				e.Failf("C17/otlp-batch-limit", "%s: request %d carries at least %d metrics, metrics_per_batch is %d", kind, i, n, spec.BatchSize)
 			}
 		}
 	case kind == "cloudwatch":
